@@ -95,8 +95,8 @@ def is_ambiguity(errors):
 def c08_family(seed, thorough):
     D = []
 
-    def mk(i, pats, tags=()):
-        D.append(Def(f'amb{i}', variants=[Var(f'V{j}', [p]) for j, p in enumerate(pats)], tags=tags))
+    def mk(i, pats, tags=(), utf8=True):
+        D.append(Def(f'amb{i}', utf8=utf8, variants=[Var(f'V{j}', [p]) for j, p in enumerate(pats)], tags=tags))
     cases = [
         [R('[a-z]+'), R('[a-f]+')],
         [R('[a-z]+'), T('fast')],
@@ -128,9 +128,15 @@ def c08_family(seed, thorough):
         [R('a+', prio=3), T('aa', prio=9), R('a{2}', prio=3), R('[ab]+', prio=3)],
         [T('x', prio=5), R('x|y', prio=1), R('[x]', prio=5), R('x?y?z?x', prio=1)],
         [R('[0-9]+', prio=2), R('[0-9]', prio=6), R('[0-4]', prio=4), R('[0-9]', prio=6)],
+        # multi-byte literals: token priority counts bytes
+        [T('é'), R('[à-ÿ]', prio=4)],
+        [T('é'), R('[à-ÿ]')],
+        [T('日本'), R('[一-龥]{2}', prio=12)],
+        [T('日本'), R('[一-龥]{2}')],
+        [T(b'\xC3\xA9'), R(b'[\xC0-\xDF][\x80-\xBF]', prio=4)],
     ]
     for i, c in enumerate(cases):
-        mk(i, c, ('amb', 'quick') if (i < 14 or i >= 24) else ('amb',))
+        mk(i, c, ('amb', 'quick') if (i < 14 or i >= 24) else ('amb',), utf8=not any(isinstance(p.lit, bytes) for p in c))
     # seeded random small definitions
     rnd = random.Random(1000 + seed)
     atoms = ['a', 'b', 'c', '[ab]', '[a-c]', '[bc]', '.', 'ab', 'bc']
@@ -264,6 +270,8 @@ def c09_shapes():
         ('nested_alt', R('((a|bb)|ccc)d')), ('rep_zero', R('(abc)*d')), ('rep_min2', R('(ab|c){2,}')), ('tok_meta', T('a+b')),
         ('ic_tok', T('ab', ignore_case=True)), ('ic_regex', R('ab', ignore_case=True)), ('cls_lit', R('[a]bc')),
         ('opt_group', R('a(bc)?d')), ('lazy', R('a+?b')),
+        ('alt_zero_first', R('(?:_*|r#)[a-z]+')), ('alt_zero_mid', R('(?:xyz|[0-9]*|pq)[a-z]')), ('alt_zero_last', R('(?:r#|_*)[a-z]')),
+        ('alt_opt_first', R('(x?|yz)w')), ('alt_look', R('(?:$|ab)c|d')), ('alt_empty', R('(|ab)cd')), ('alt_rep0', R('(ab){0,2}c|dd')),
     ]
     B = [
         ('b_tok', T(b'\xC3\xA9')), ('b_regex_utf8', R(b'\xC3\xA9')), ('b_regex_raw', R(b'\xFF\xFE')), ('b_class', R(b'[\x80-\xFF]a')),
@@ -293,7 +301,8 @@ def c09(tier, seed):
     ev = report.Evidence('C09', tier, seed, 'other')
     shapes = c09_defs()
     if tier == 'quick':
-        shapes = shapes[:14] + shapes[-3:]
+        keep = {'alt_zero_first', 'alt_zero_mid', 'alt_opt_first', 'alt_empty'}
+        shapes = shapes[:14] + [x for x in shapes[14:] if x[0] in keep] + shapes[-3:]
     # documented default priority from the independent implementation (refdfa facts) / 2 x byte length
     probes = []
     meta = {}
@@ -444,6 +453,11 @@ def c18_cases():
         dd.logos_items_order = list(perm)
         srcs.append(corpus.render_enum(dd, derive_line=''))
     cases.append(('logos-items', srcs))
+    srcs2 = []
+    for perm in itertools.permutations(range(3)):
+        dd = ord_skips_def(list(perm))
+        srcs2.append(corpus.render_enum(dd, derive_line=''))
+    cases.append(('logos-skips', srcs2))
     # generic enum: type substitution and source lifetime in either order
     gitems = ["lifetime = 'a", "type T = &'a str", 'extras = u8', 'skip " +"']
     cases.append(('logos-items-generic', [
@@ -495,6 +509,12 @@ def compile_representatives(name, srcs, rs, summ):
 compile_representatives.last = None
 
 
+def ord_skips_def(order=None, ident='ord_skips'):
+    """overlapping callback-less skips of different priority with a token in between"""
+    return Def(ident, skips=[R('//[a-z ]*', prio=4), R('////[a-z ]*', prio=8), R(' +')],
+               variants=[Var('Doc', [R('///[a-z ]*', prio=6)]), Var('Z', [T('zz')])], combined_logos_attr=True, logos_items_order=order)
+
+
 def ord_items_def(order=None, ident='ord_items'):
     return Def(ident, utf8=False, error='E', prelude='#[derive(Debug, PartialEq, Clone, Default)]\npub struct E;',
                subs=[('d', '[0-9]'), ('dd', '(?&d)(?&d)')], skips=[R(' +'), R('#+', prio=3)],
@@ -536,6 +556,17 @@ def c18(tier, seed):
             rc = max(rc, known_or_violation('C18', role, f'{name}: accepted in one argument order, rejected in another: '
                                             f'{srcs[rej].splitlines()[0][:120]} -> {rs[rej]["errors"][:1]}', info, ev,
                                             'ord-' + hashlib.sha1(name.encode()).hexdigest()[:8]))
+        elif statuses == {'accepted'} and name == 'logos-skips':
+            # overlapping skips: every order must give an equivalent lexer -> all orders go through the lexing obligations
+            rep_defs = [ord_skips_def(list(p), f'ord_skips_{i}') for i, p in enumerate(itertools.permutations(range(3)))]
+            from .props import lex_family, tier_params
+            tp = tier_params(tier)
+            tp['cfgs'] = ['tc-unsafe']
+            tp['starts'] = (0,)
+            hook = {}
+            rc = max(rc, lex_family('C18', tier, seed, relevant={'C01', 'C02', 'C03'}, select=lambda ds: rep_defs, name='lexskips',
+                                    evidence_hook=hook, **tp))
+            summary[-1]['orders_checked_by_solver'] = len(rep_defs)
         elif statuses == {'accepted'} and len(hashes) > 1 and name == 'logos-items':
             # the order of skip items renumbers the leaves: decide equivalence with the lexing obligations on one
             # representative per distinct generated code
